@@ -77,7 +77,7 @@ REGISTRY = {
               description="from every function that accepts a row-ownership range, each call whose resolved callee accepts `ownership` "
                           "receives the caller's range (by keyword or through the keyword dict that carries it): a dropped range silently "
                           "builds every row of the operator"),
-            kronalg.rule_ownership_guard, kronalg.rule_dispatch_sibling_args, kronalg.rule_expec_table, reduceorder.rule_reduce_order,
+            kronalg.rule_ownership_guard, kronalg.rule_dispatch_sibling_args, kronalg.rule_expec_table, reduceorder.rule_reduce_order, threads.rule_no_nested_pool_wait,
         ],
         "explanation": (
             "static (narrow): decides three structural necessary conditions of C15 — the row-ownership range is delivered along every "
@@ -284,7 +284,7 @@ REGISTRY = {
     },
     "C16": {
         "rules": [threads.rule_kernel_template, threads.rule_pool_discipline, threads.rule_divisor_nonzero,
-                  threads.rule_stride_siblings, threads.rule_accumulator_initialised, reduceorder.rule_reduce_order],
+                  threads.rule_stride_siblings, threads.rule_accumulator_initialised, reduceorder.rule_reduce_order, threads.rule_no_nested_pool_wait],
         "explanation": (
             "static (template conformance + sign/zero abstract interpretation + sibling comparison): decides "
             "the shapes from which schedule independence follows — every block kernel partitions its own size "
